@@ -1,6 +1,6 @@
 """property -> rule sets (DESIGN §4)"""
 from engine import ok, bad, assumed, floor
-import r_lock, r_panic, r_errd, r_order, r_misc, r_nowrap, r_desc, r_registry, r_effects
+import r_lock, r_panic, r_errd, r_order, r_misc, r_nowrap, r_desc, r_registry, r_effects, r_value
 
 PROPS = {}
 
@@ -107,7 +107,7 @@ def exec_scope(ctx):
 
 
 FALLIBLE_CONV = __import__('re').compile(
-    r'(::checked_\w+$|::try_from$|::try_into$|::from_str$|::from_str_exact$|::from_scientific$|^core::str::<impl str>::parse$|FromPrimitive>::from_\w+$|ToPrimitive>::to_\w+$|::from_str_radix$)')
+    r'(::checked_\w+$|::try_from$|::try_into$|::from_str$|::from_str_exact$|::from_scientific$|^core::str::<impl str>::parse$|FromPrimitive>?::from_\w+$|ToPrimitive>?::to_\w+$|::from_str_radix$)')
 
 def fallible_conv(c):
     n = c.rdef or c.callee or ''
@@ -218,3 +218,34 @@ def c16(ctx):
     obs += r_misc.rule_statics(ctx)
     obs += r_misc.rule_freeze(ctx)
     return obs, {'analysed': {'scope_bodies': n}}
+
+
+@prop('C17',
+      'LOSSY: in every numeric `impl From<T> for Value` the single fallible Decimal constructor is applied to the argument itself and its failure is not replaced by a default unless the constructor is total for T (spec/total_ctors.tsv: every 8..64-bit integer fits the 96-bit mantissa); `as` casts on the way are violations. '
+      'TACC: every typed accessor of Value (public by-value method returning the crate Result) can succeed only on the switch edge of its own variant; the non-numeric accessors return the payload moved out unchanged. '
+      'TFROM: every non-numeric From<T> for Value is one aggregate of the matching variant around the argument (or its owned copy), so wrap o unwrap is the identity by construction (string / bool / decimal / list round trips).',
+      not_decided='integer() / float() on numbers with non-zero scale (goes through to_string().parse(): a value property); exactness of Decimal::from_* when it succeeds (rust_decimal)',
+      assumptions=COMMON_ASSUME)
+def c17(ctx):
+    prog = ctx.prog
+    obs = r_value.rule_lossy(prog)
+    obs += r_value.rule_tacc(prog)
+    obs += r_value.rule_tfrom(prog)
+    return obs, {'analysed': {'from_impls': len(r_value.from_impls(prog)), 'accessors': len(r_value.accessors(prog))}}
+
+
+@prop('C03',
+      'TACC: every typed accessor of Value succeeds only on the switch edge of its own variant (no coercing arm). '
+      'HTYPED: in each of the built-in handler closures (found by role: closures escaping into a handler dyn Fn type) every Value-typed operand is consumed only through a type gate — a TACC accessor whose result is ?-propagated, '
+      'a variant match whose non-selected arms all reach an Err return, Value equality, or the unchanged return value; Display / to_string / float() / an untyped helper on an operand is a violation. '
+      'TACC + HTYPED => a wrongly typed operand yields an error, never a coerced value. '
+      'TOP (thorough): inside the grouped closures the arm selected by a string literal performs the operation the language assigns to that literal on (left, right) in that order, and the arm literals equal the literals the closure is registered under.',
+      not_decided='the numeric / boolean / string results themselves (values); aggregates (AND OR in min max sum mul) are loops whose results are not decided',
+      assumptions=COMMON_ASSUME)
+def c03(ctx):
+    prog = ctx.prog
+    hs = prog.builtin_handlers()
+    obs = r_value.rule_tacc(prog)
+    obs += r_value.rule_htyped(prog, hs)
+    obs.append(floor('HTYPED', 'builtin-handlers', len(hs), 20, 'documented built-in operators and functions'))
+    return obs, {'analysed': {'builtin_handlers': len(hs)}}
